@@ -9,14 +9,6 @@ open BtcVerif BtcVerif.Spec.ValueSem
 
 /-! ### classes of objects and values -/
 
-def Scalars.kind : Scalars → Nat
-  | .outpoint _ _ => 0 | .txin _ _ => 1 | .txout _ _ => 2 | .inwit _ => 3 | .wit => 4 | .tx _ _ => 5
-  | .header _ => 6 | .block _ => 7 | .seq .ins => 8 | .seq .outs => 9 | .seq .stacks => 10 | .seq .txs => 11
-
-def valKind : Val → Nat
-  | .outpoint _ => 0 | .txin _ => 1 | .txout _ => 2 | .inwit _ => 3 | .wit _ => 4 | .tx _ => 5
-  | .header _ => 6 | .block _ => 7 | .ins _ => 8 | .outs _ => 9 | .stacks _ => 10 | .txs _ => 11
-
 theorem assemble_kind {sc : Scalars} {vs : List Val} {v : Val} (h : assemble sc vs = some v) :
     valKind v = sc.kind := by
   cases sc with
